@@ -41,6 +41,11 @@ pub struct Case {
     /// side (a diverged duplicate of the locus; every (k-1)-mer still unique): (distance selector, base, base)
     #[serde(default)]
     pub paralog: Option<(u8, u8, u8)>,
+    /// one sample (of >= 4) also holds, as a second record, its own sequence with one indel in the other form (a
+    /// mixture, or two assemblies of one isolate): it carries both alleles there, whatever it is genotyped as must
+    /// say so: (sample selector, indel selector)
+    #[serde(default)]
+    pub mixed: Option<(u16, u16)>,
 }
 
 fn case_strategy() -> BoxedStrategy<Case> {
@@ -56,9 +61,9 @@ fn case_strategy() -> BoxedStrategy<Case> {
         prop_oneof![2 => Just(None), 1 => (any::<u16>(), any::<u16>()).prop_map(Some)],
         prop::bool::weighted(0.3),
         prop_oneof![6 => Just(None), 1 => (any::<u8>(), any::<u8>()).prop_map(Some)],
-        prop_oneof![1 => Just(None), 1 => (any::<u8>(), 1u8..4, 1u8..4).prop_map(Some)],
+        (prop_oneof![1 => Just(None), 1 => (any::<u8>(), 1u8..4, 1u8..4).prop_map(Some)], prop_oneof![7 => Just(None), 1 => (any::<u16>(), any::<u16>()).prop_map(Some)]),
     )
-        .prop_map(|(k, n_samples, material, lead, tail, indels, orient, threads, trunc, twin, hairpin, paralog)| Case { k, n_samples, material, lead, tail, indels, orient, threads, trunc, twin, hairpin, paralog })
+        .prop_map(|(k, n_samples, material, lead, tail, indels, orient, threads, trunc, twin, hairpin, (paralog, mixed))| Case { k, n_samples, material, lead, tail, indels, orient, threads, trunc, twin, hairpin, paralog, mixed })
         .boxed()
 }
 
@@ -70,6 +75,8 @@ pub struct Mat {
     pub samples: Vec<Sample>,
     /// (sample, cut position in ancestor coordinates) of the truncated sample
     pub trunc: Option<(usize, usize)>,
+    /// (sample, indel, the sample's second record in forward orientation) of the sample that carries both forms
+    pub mixed: Option<(usize, usize, Vec<u8>)>,
 }
 
 const SELF_RC_SITES: [&[u8]; 14] = [b"AT", b"GC", b"TA", b"CG", b"ACGT", b"TGCA", b"GATC", b"CATG", b"GAATTC", b"GGATCC", b"AAGCTT", b"GTCGAC", b"ACGCGT", b"AGATCT"];
@@ -172,7 +179,7 @@ fn materialise_hairpin(c: &Case, site_sel: u8, extra: u8) -> Result<Mat, String>
         .enumerate()
         .map(|(j, sq)| (format!("{}{j}", ["m", "c", "x", "a", "t", "g", "p", "e", "z", "k"][j % 10]), vec![if c.orient[j % c.orient.len()] { model::revcomp(sq) } else { sq.clone() }]))
         .collect();
-    Ok(Mat { ancestor: anc, indels: vec![(p, ln, cs)], fwd, samples, trunc: None })
+    Ok(Mat { ancestor: anc, indels: vec![(p, ln, cs)], fwd, samples, trunc: None, mixed: None })
 }
 
 pub fn materialise(c: &Case) -> Result<Mat, String> {
@@ -318,12 +325,27 @@ pub fn materialise(c: &Case) -> Result<Mat, String> {
             }
         }
     }
-    let samples = fwd
+    let mut samples: Vec<Sample> = fwd
         .iter()
         .enumerate()
         .map(|(j, s)| (format!("{}{j}", ["m", "c", "x", "a", "t", "g", "p", "e", "z", "k"][j % 10]), vec![if c.orient[j % c.orient.len()] { model::revcomp(s) } else { s.clone() }]))
         .collect();
-    Ok(Mat { ancestor: anc, indels, fwd, samples, trunc })
+    let mixed = match (c.mixed, trunc) {
+        (Some((js, is)), None) if c.n_samples >= 4 => {
+            let (j, i) = (gen::idx(js, c.n_samples), gen::idx(is, indels.len()));
+            // the sample's own sequence with indel i in its other form
+            let mut other = anc.clone();
+            for (ii, (p, ln, cs)) in indels.iter().enumerate().rev() {
+                if cs[j] != (ii == i) {
+                    other.drain(*p..*p + *ln);
+                }
+            }
+            samples[j].1.push(if (js / 7) % 2 == 0 { other.clone() } else { model::revcomp(&other) });
+            Some((j, i, other))
+        }
+        _ => None,
+    };
+    Ok(Mat { ancestor: anc, indels, fwd, samples, trunc, mixed })
 }
 
 fn contains(hay: &[u8], needle: &[u8]) -> bool {
@@ -394,7 +416,7 @@ fn check(c: &Case, ctx: &Ctx) -> Outcome {
         must_ok(&build(ctx, &dir, "x", &m.samples, k, true, 1), "ska build")?;
         let ts = c.threads.to_string();
         let mut args = vec!["lo", "x.skf", "out", "--threads", &ts];
-        if m.trunc.is_some() {
+        if m.trunc.is_some() || m.mixed.is_some() {
             // one of >= 4 samples is missing at the indels behind the cut
             args.extend_from_slice(&["-m", "0.4"]);
         }
@@ -442,8 +464,9 @@ fn check(c: &Case, ctx: &Ctx) -> Outcome {
             let (r0, r1) = (model::revcomp(&s0), model::revcomp(&s1));
             let gts = &f[9..];
             for (j, gt) in gts.iter().enumerate() {
-                let has0 = contains(&m.fwd[j], &s0) || contains(&m.fwd[j], &r0);
-                let has1 = contains(&m.fwd[j], &s1) || contains(&m.fwd[j], &r1);
+                let second: &[u8] = match &m.mixed { Some((mj, _, o)) if *mj == j => o, _ => &[] };
+                let has0 = contains(&m.fwd[j], &s0) || contains(&m.fwd[j], &r0) || contains(second, &s0) || contains(second, &r0);
+                let has1 = contains(&m.fwd[j], &s1) || contains(&m.fwd[j], &r1) || contains(second, &s1) || contains(second, &r1);
                 let ok = match *gt {
                     "0" => has0 && !has1,
                     "1" => has1 && !has0,
@@ -471,7 +494,8 @@ fn check(c: &Case, ctx: &Ctx) -> Outcome {
                     // tandem repeat ska lo may anchor the shorter flank at another repeat unit; the two literal
                     // forms below still pin the record to this indel)
                     let _ = (dl, ln);
-                    if !(0..c.n_samples).all(|j| if missing(j) { gts[j] == "." } else { (gts[j] == long_gt) == !cs[j] && gts[j] != "." }) {
+                    let both = |j: usize| matches!(&m.mixed, Some((mj, mi, _)) if *mj == j && *mi == *i);
+                    if !(0..c.n_samples).all(|j| if both(j) { gts[j] == "0/1" || gts[j] == "." } else if missing(j) { gts[j] == "." } else { (gts[j] == long_gt) == !cs[j] && gts[j] != "." }) {
                         return false;
                     }
                     let mut del = m.ancestor.clone();
@@ -497,10 +521,12 @@ fn check(c: &Case, ctx: &Ctx) -> Outcome {
         Ok((matched, planted)) => {
             let found = matched.len();
             if !ctx.replay {
-                PLANTED.fetch_add(planted as u64, Ordering::Relaxed);
-                FOUND.fetch_add(found as u64, Ordering::Relaxed);
+                // (an indel at which one sample holds both forms is outside the completeness clause: not counted)
+                let skip = |i: &usize| matches!(&m.mixed, Some((_, mi, _)) if mi == i);
+                PLANTED.fetch_add((0..planted).filter(|i| !skip(i)).count() as u64, Ordering::Relaxed);
+                FOUND.fetch_add(matched.iter().filter(|i| !skip(i)).count() as u64, Ordering::Relaxed);
                 let mut st = STRATA.lock().unwrap();
-                for i in 0..planted {
+                for i in (0..planted).filter(|i| !matches!(&m.mixed, Some((_, mi, _)) if mi == i)) {
                     for name in strata_of(c, &m, i) {
                         let e = st.entry(name).or_insert((0, 0));
                         e.0 += 1;
@@ -515,6 +541,7 @@ fn check(c: &Case, ctx: &Ctx) -> Outcome {
             if planted >= 2 { cl.push(">=2_indels"); }
             if c.threads > 1 { cl.push("threads>1"); }
             if m.trunc.is_some() { cl.push("sample_missing_at_an_indel"); }
+            if let Some((_, mi, _)) = &m.mixed { cl.push("sample_with_both_forms_of_an_indel"); if matched.contains(mi) { cl.push("sample_with_both_forms:that_indel_reported"); } }
             if c.twin && planted >= 2 && c.hairpin.is_none() { cl.push("twin_indels(same_sequence_same_carriers_two_loci)"); }
             if c.hairpin.is_some() { cl.push("self_complementary_indel_between_inverted_flanks"); }
             if c.paralog.is_some() && !c.twin && c.hairpin.is_none() && planted >= 2 { cl.push("two_loci_with_near_copies_of_the_same_flanks"); }
@@ -559,7 +586,7 @@ fn post(rt: &mut Runtime) {
     }
 }
 
-const RULE: &str = "generated: ancestor (all insertions present) with unique (k-1)-mers on both strands, 1-3 indels of length 1..min(10,k-1) at least 4k apart and 2k from the ends, carrier sets non-empty and proper over 3-8 samples, in 30% of the multi-indel cases the second indel removes the same sequence from the same carriers as the first (two loci, two records expected), in a seventh of the cases a single indel of a sequence equal to its own reverse complement (AT, GATC, GAATTC, ...) between inverted flanks W..rc(W) with |W| >= k-1 (every (k-1)-mer still occurs once in each sequence as written; the two strands of that locus read alike), in half of the multi-indel cases without twins the k-1 bases before and behind the second indel are those of the first with one substitution each (a transition, or the transversion to the complementary base) at the same distance from the junction (a diverged duplicate of the locus), the union of all derived samples re-checked: a (k-1)-mer may recur only at the same ancestor coordinates (rejections counted), samples randomly reverse-complemented, k in {11,15,21,31}, threads 1-4; in a third of the cases one of >= 4 samples is truncated >= 2k before an indel (neither form present: must be genotyped '.', run with -m 0.4). Oracle per record: before+REF+after (or its reverse complement) occurs in exactly the samples genotyped 0, before+ALT+after in exactly those genotyped 1, '.' iff neither or both; the record matches one planted indel by length and carriers, none twice, none unmatched; aggregate recall >= 90% (checked when >= 200 planted), also within each stratum of >= 150 planted indels (twin pairs, self-complementary indels between inverted flanks, loci with near-copies of the same flanks and among them those with a transition on either side, junction homology >= indel length, no junction homology, carried by exactly half of the samples, singleton carrier, length classes). Non-trivial: >= 1 indel reported.";
+const RULE: &str = "generated: ancestor (all insertions present) with unique (k-1)-mers on both strands, 1-3 indels of length 1..min(10,k-1) at least 4k apart and 2k from the ends, carrier sets non-empty and proper over 3-8 samples, in 30% of the multi-indel cases the second indel removes the same sequence from the same carriers as the first (two loci, two records expected), in a seventh of the cases a single indel of a sequence equal to its own reverse complement (AT, GATC, GAATTC, ...) between inverted flanks W..rc(W) with |W| >= k-1 (every (k-1)-mer still occurs once in each sequence as written; the two strands of that locus read alike), in half of the multi-indel cases without twins the k-1 bases before and behind the second indel are those of the first with one substitution each (a transition, or the transversion to the complementary base) at the same distance from the junction (a diverged duplicate of the locus), the union of all derived samples re-checked: a (k-1)-mer may recur only at the same ancestor coordinates (rejections counted), samples randomly reverse-complemented, k in {11,15,21,31}, threads 1-4; in a third of the cases one of >= 4 samples is truncated >= 2k before an indel (neither form present: must be genotyped '.', run with -m 0.4); in an eighth of the cases one of >= 4 samples holds a second record with one indel in its other form (both alleles present: 0/1 or '.', never a plain 0 or 1; run with -m 0.4; that indel is not counted for recall). Oracle per record: before+REF+after (or its reverse complement) occurs in exactly the samples genotyped 0, before+ALT+after in exactly those genotyped 1, '.' iff neither or both; the record matches one planted indel by length and carriers, none twice, none unmatched; aggregate recall >= 90% (checked when >= 200 planted), also within each stratum of >= 150 planted indels (twin pairs, self-complementary indels between inverted flanks, loci with near-copies of the same flanks and among them those with a transition on either side, junction homology >= indel length, no junction homology, carried by exactly half of the samples, singleton carrier, length classes). Non-trivial: >= 1 indel reported.";
 
 fn stages(tier: Tier) -> Vec<Box<dyn Stage>> {
     vec![gen_stage_show("indels", RULE, tier.pick(2400, 24_000), 150, case_strategy, check, |c| match materialise(c) {
